@@ -56,7 +56,7 @@ def run(ctx, only=None):
     RDLogger.DisableLog('rdApp.*')          # RDKit's C++ parser messages for the unreadable inputs
     cases, payloads, mexpr = [], {}, {}
     state = {'found': False}
-    dist = {'naming_strings': 0, 'entry': {}, 'first_class': {}, 'level': {}, 'all_iters': 0, 'save': 0, 'unnamed': 0,
+    dist = {'conformer_ids_contiguous': 0, 'conformer_ids_gapped': 0, 'conformer_ids_shifted': 0, 'conformer_ids_reversed': 0, 'conformer_ids_all_zero': 0, 'naming_strings': 0, 'entry': {}, 'first_class': {}, 'level': {}, 'all_iters': 0, 'save': 0, 'unnamed': 0,
             'suffix_names_outside_property': 0, 'first_outside_property': 0, 'smiles_histories': 0, 'smiles_calls': 0,
             'out_ext': {}, 'errors': 0, 'n_confs': {}}
 
@@ -161,7 +161,15 @@ def run(ctx, only=None):
             P['out_dir_base'] = os.path.join(cdir, 'fp')
         if save and name is not None and '/' in name:
             save = False
-        mol = PG.make_mol(base, n, name)
+        # conformer ids as RDKit hands them out are not positions: gaps (after RemoveConformer), any order, repeats (AddConformer
+        # without assignId); the property speaks of the conformer INDEX (position in conformer order)
+        id_mode = 'contiguous'
+        if entry in ('dict_mol', 'from_mol') and n >= 2 and rng.random() < 0.35:
+            id_mode = rng.choice(['gapped', 'shifted', 'reversed', 'all_zero'])
+        ids = {'contiguous': None, 'gapped': sorted(rng.sample(range(0, 3 * n + 2), n)), 'shifted': list(range(1, n + 1)),
+               'reversed': list(range(n - 1, -1, -1)), 'all_zero': [0] * n}[id_mode]
+        dist['conformer_ids_' + id_mode] += 1
+        mol = PG.make_mol(base, n, name, ids=ids)
         sdf_path = None
         if entry in ('from_sdf', 'dict_sdf'):
             sdf_path = os.path.join(cdir, 'in.sdf' + rng.choice(['', '.gz', '.bz2']))
